@@ -56,12 +56,12 @@ FINDINGS = [
               '{ a INTEGER } OPTIONAL, b BOOLEAN, ..., id SEQUENCE OF BOOLEAN OPTIONAL } value {b, id} fails to decode (ber.py:787-823)',
          witness=dict(kind='roundtrip', spec=HDRX + 'A ::= SEQUENCE { y SEQUENCE { a INTEGER } OPTIONAL, b BOOLEAN, ..., id SEQUENCE OF BOOLEAN OPTIONAL }' + END,
                       codec='ber', type='A', value={'b': True, 'id': [True]})),
-    dict(key='oer-choice-with-untagged-choice-alternative', props=['C01'],
+    dict(key='oer-choice-with-untagged-choice-alternative', props=['C01', 'C19'],
          text='OER CHOICE whose alternative is an untagged CHOICE: CHOICE { c CHOICE { d VisibleString, f TeletexString }, e INTEGER } '
               "value ('c', ('f', '')) raises TypeError in encode (member.tag is None, oer.py:956)",
          witness=dict(kind='roundtrip', spec=HDRX + 'A ::= CHOICE { c CHOICE { d VisibleString, f TeletexString }, e INTEGER }' + END,
                       codec='oer', type='A', value=T(['c', T(['f', ''])]))),
-    dict(key='oer-choice-alternative-recursive-reference', props=['C01'],
+    dict(key='oer-choice-alternative-recursive-reference', props=['C01', 'C19'],
          text="OER CHOICE alternative that is an untagged recursive type reference: A ::= SEQUENCE OF CHOICE { a INTEGER, b B }  "
               "B ::= SEQUENCE OF CHOICE { s GeneralString, d A } value [('b', [('d', [])])] raises TypeError in encode (Recursive has no tag, oer.py:1235-1249)",
          witness=dict(kind='roundtrip', spec=HDRX + 'A ::= SEQUENCE OF CHOICE { a INTEGER, b B } B ::= SEQUENCE OF CHOICE { s GeneralString, d A }' + END,
@@ -81,4 +81,30 @@ FINDINGS = [
               'must be separated by exactly one space: "A ::= OCTET  STRING", a newline, a tab or a comment between the words is rejected '
               '(pyparsing Keyword literals containing a space, parser.py:870-928)',
          witness=dict(kind='custom', name='multiword_keyword')),
+    dict(key='size-constraint-on-type-reference-ignored', props=['C19'],
+         text='a SIZE constraint written on a type reference is ignored by PER/UPER/OER when the reference is a SEQUENCE OF element '
+              '(or the referenced type is a BIT STRING / SEQUENCE OF): B ::= BIT STRING  A ::= SEQUENCE OF B (SIZE (1..2)) encodes the '
+              'element with an unconstrained length (01 02 80) while SEQUENCE OF BIT STRING (SIZE (1..2)) gives 01 c0 in UPER '
+              '(compiler.py:900-903 only applies set_size_range to members, most types do not implement it)',
+         witness=dict(kind='encode_expect', spec=HDR + 'B ::= BIT STRING A ::= SEQUENCE OF B (SIZE (1..2))' + END, codec='uper', type='A',
+                      value=[T([B('80'), 2])], expected_hex='01c0')),
+    dict(key='recursive-types-across-modules', props=['C19'],
+         text='mutually recursive types that live in two modules importing each other do not compile (KeyError in Compiler.process, '
+              'compiler.py:239-243 looks the recursive type up in the wrong module), while the same definitions in one module do: moving a '
+              'definition into another module and importing it changes the outcome',
+         witness=dict(kind='custom', name='recursive_across_modules')),
+    dict(key='extensibility-implied-not-applied-to-nested-types', props=['C19'],
+         text='EXTENSIBILITY IMPLIED is only applied to SEQUENCE/SET/CHOICE types reached through members, not to one written as the element '
+              'of a SEQUENCE OF / SET OF: with EXTENSIBILITY IMPLIED, T ::= CHOICE { a BOOLEAN }  A ::= SEQUENCE OF T encodes [(a, TRUE)] as '
+              '01 40 (extension bit present) but A ::= SEQUENCE OF CHOICE { a BOOLEAN } as 01 80 in UPER (compiler.py:317-334)',
+         witness=dict(kind='encode_expect', spec='M DEFINITIONS AUTOMATIC TAGS EXTENSIBILITY IMPLIED ::= BEGIN A ::= SEQUENCE OF CHOICE { a BOOLEAN }' + END,
+                      codec='uper', type='A', value=[T(['a', True])], expected_hex='0140')),
+    dict(key='ber-nested-choice-recursive-alternative-loses-level', props=['C01', 'C19'],
+         text='BER/DER: a CHOICE with an untagged CHOICE alternative whose own alternative closes a recursion cycle decodes to the inner '
+              "alternative without the outer level, depending on the order of the assignments: X ::= SEQUENCE { a A }  A ::= SET { b [0] CHOICE "
+              "{ v BOOLEAN, f C } }  C ::= CHOICE { n [0] IMPLICIT X, m [1] NULL }: {b: (f, (n, {a: {b: (v, TRUE)}}))} decodes as {b: (n, ...)}; "
+              "with C written first it round-trips (ber.py:1168-1184 registers the recursive member in the outer CHOICE)",
+         witness=dict(kind='roundtrip', spec='M DEFINITIONS EXPLICIT TAGS ::= BEGIN X ::= SEQUENCE { a A } A ::= SET { b [0] CHOICE { v BOOLEAN, f C } } '
+                                             'C ::= CHOICE { n [0] IMPLICIT X, m [1] NULL }' + END,
+                      codec='ber', type='A', value={'b': T(['f', T(['n', {'a': {'b': T(['v', True])}}])])})),
 ]
